@@ -90,11 +90,153 @@ def obligations(tier, seed):
                                  keydetail="source!=max_body_size"))
     out.append(_content_length_gate(core, b, mx))
 
+    # ---- WebSocket: what happens to an oversize message ---------------------------------------------------------------
+    out += _ws_oversize_arm(srv)
+    out += _too_big_code(R.bodies("types"))
     # ---- the capture chain: the coroutine's captured config IS the caller's config argument ----------------------------
     out += _capture_chain(srv)
     # ---- read_body over chunked bodies: nothing above the limit is ever handed on ---------------------------------------
     from .C19 import limit_obligations
     out += limit_obligations(core, tier)
+    return out
+
+
+def _too_big_code(types):
+    """reject_too_big_request(limit) builds the error object with OVERSIZED_REQUEST_CODE (-32007) and quotes the limit it is given"""
+    from ..sym import Executor
+    b = R.find_body(types, r"^fn (\w+::)*reject_too_big_request\(_1: u32\)")
+    ctx = P.make_ctx(types, extra_models=[])
+    ex = Executor(ctx)
+    ps = ex.run(b)
+    bad = [(p.kind, p.detail) for p in ps if p.kind != "return"]
+    want = R.source_tables()["consts"]["OVERSIZED_REQUEST_CODE"][0]
+    viol, reach = [], []
+    for p in ps:
+        if p.kind != "return":
+            continue
+        ow = [e for e in p.events if e.kind == "call" and re.search(r"ErrorObject::<'_>::owned::<", e.callee)]
+        reach.append(p.cond())
+        if len(ow) != 1 or not isinstance(ow[0].args[0], z3.BitVecRef) or want != -32007:
+            viol.append(p.cond())
+            continue
+        viol.append(z3.And(p.cond(), ow[0].args[0] != z3.BitVecVal(want & 0xFFFFFFFF, 32)))
+    reach_l = R.live_reach(viol, reach, bad)
+    if bad or not reach_l[0]:
+        return [R.Result(engine="mirsym", name="kernel:reject_too_big_request", kind="kernel", status="unsupported" if bad else "vacuous", detail=str(bad[:1])[:300], bodies=[b.name])]
+    return [R.decide("kernel:reject_too_big_request:code", "kernel", z3.Or(*viol), [z3.Or(*reach_l[0])], bodies=[b.name],
+                     desc="the rejection of an oversize WebSocket message is the error object with code OVERSIZED_REQUEST_CODE = -32007", bounds="all u32 limits", keydetail="too-big-code",
+                     replay=dict(scenario="c07_ws", vars={}, fixed={"entry": "server", "max_req": 200, "max_resp": 4000, "n": 400}, region=z3.BoolVal(True)))]
+
+
+def _ws_oversize_arm(srv):
+    """ws::background_task receive loop: a message the frame reader refused as too large is answered once - id null, reject_too_big_request(this connection's
+    max_request_body_size) - no task is spawned for it (nothing is parsed or dispatched), and the loop goes on to the next message unless the reply itself could not be sent"""
+    from ..sym import Executor, Node, Ptr, Opaque, OBJ, Fork, to_term
+    from .. import seqmodels as SQ, mapmodels as MM
+    b = R.find_body(srv, r"^fn background_task::\{closure#0\}\(_1: Pin<&mut \{async fn body of background_task<S>")
+    recvs = R.source_tables()["enums"].get("Receive")
+    kinds = R.dep_enum("jsonrpsee-server", "soketto", "src/connection.rs", "Error")
+    ids = R.source_tables()["enums"]["Id"]
+    fi_cfg = R.field_index("BackgroundTaskParams", "server_cfg")
+    fi_lim = _cfg("max_request_body_size")
+    cap = P.capture_index(b, "params")
+    want_limit = f"arg1.0.*.{cap}.{fi_cfg}.{fi_lim}"
+
+    def m_poll_try_recv(ex, st, callee, args, dty, site):
+        r = Node(ex.ctx.fresh_name("received"), "Receive")
+        d = Node(r.name + ".discr", "isize")
+        d.val = z3.BitVec(ex.ctx.fresh_name("try_recv.outcome"), 64)
+        st["pc"].append(z3.ULE(d.val, len(recvs) - 1))
+        r.kids["discr"] = d
+        for vn in recvs:
+            for j in range(2):
+                kk = Node(f"{r.name}.{vn}:{j}", None)
+                if vn == "Err" and j == 0:
+                    dd = Node(kk.name + ".discr", "isize")          # which soketto error: the solver's choice
+                    dd.val = z3.BitVec(ex.ctx.fresh_name("recv_error.kind"), 64)
+                    st["pc"].append(z3.ULE(dd.val, len(kinds) - 1))
+                    kk.kids["discr"] = dd
+                else:
+                    kk.val = Opaque(z3.Const(f"{r.name}.{vn}.{j}", OBJ))
+                r.kids[(vn, j)] = kk
+        return ex.mk_variant("Poll", 0, "Ready", r)
+
+    def m_poll_send_error(ex, st, callee, args, dty, site):
+        ok = z3.Bool(ex.ctx.fresh_name("send_error.ok"))
+        return Fork([(ok, lambda ex_, st_, tr: ex_.mk_variant("Poll", 0, "Ready", ex_.mk_variant("Result", 0, "Ok", MM.UNIT))),
+                     (z3.Not(ok), lambda ex_, st_, tr: ex_.mk_variant("Poll", 0, "Ready", ex_.mk_variant("Result", 1, "Err", Opaque(z3.Const("disconnected", OBJ)))))])
+    extra = [(r"async fn body of try_recv<.*\(\)\} as (\w+::)*Future>::poll$", m_poll_try_recv),
+             (r"async fn body of MethodSink::send_error\(\)\} as (\w+::)*Future>::poll$", m_poll_send_error)]
+    ex, ctx, paths = P.explore(srv, b, extra_models=extra + SQ.TRY_MODELS + list(M.TRACING_MODELS), max_paths=60000, max_visits=3)
+    bad = [(p.kind, p.detail) for p in paths if p.kind in ("unsupported", "limit")]
+    ERR, BIG = recvs.index("Err"), kinds.index("MessageTooLarge")
+    viol, reach = [], {"answered-and-continued": [], "reply-failed-and-closed": []}
+    for p in paths:
+        evs = [e for e in p.events if e.kind == "call"]
+        idxs = [i for i, e in enumerate(evs) if re.search(r"async fn body of try_recv<.*Future>::poll$", e.callee)]
+        for n, i in enumerate(idxs):
+            cont = n + 1 < len(idxs)
+            if not cont and p.kind != "return":
+                continue
+            seg = evs[i + 1:(idxs[n + 1] if cont else len(evs))]
+            rec = ex.read_node(ex.child(evs[i].ret, ("Ready", 0), None)) if isinstance(evs[i].ret, Node) else None
+            if rec is None:
+                continue
+            d = ex.discr_of(rec)
+            kd = ex.read_node(rec.kids[("Err", 0)].kids["discr"]) if ("Err", 0) in rec.kids and "discr" in rec.kids[("Err", 0)].kids else None
+            if kd is None or ex.feasible(list(p.pc) + [z3.Or(d != ERR, kd != BIG)]):
+                continue                    # not (only) the oversize case
+            pc = p.cond()
+            rej = [e for e in seg if e.callee == "reject_too_big_request"]
+            snd = [e for e in seg if e.callee == "MethodSink::send_error"]
+            spawns = [e for e in seg if e.callee.startswith("tokio::spawn::<")]
+            calls = [e for e in seg if re.search(r"handle_rpc_call|RpcServiceT>::(call|batch|notification)", e.callee)]
+            good = len(rej) == 1 and len(snd) == 1 and not spawns and not calls
+            if good:
+                lim = rej[0].args[0]
+                good = str(to_term(ex.read_node(lim) if isinstance(lim, Node) else lim)) == want_limit
+            if good:
+                idn = snd[0].args[1]
+                idd = z3.simplify(ex.discr_of(idn)) if isinstance(idn, Node) else None
+                good = idd is not None and z3.is_bv_value(idd) and ids[idd.as_long()] == "Null" and "reject_too_big_request" in str(to_term(snd[0].args[2]))
+            if not good:
+                viol.append(pc)
+                continue
+            oks = [c for c in p.pc if "send_error.ok" in str(c)]
+            sent = z3.And(*oks) if oks else z3.BoolVal(True)
+            if cont:
+                reach["answered-and-continued"].append(pc)
+            else:
+                # the loop ended after an oversize message: only allowed when the reply could not be sent
+                reach["reply-failed-and-closed"].append(pc)
+                s_ = z3.Solver()
+                s_.add(pc)
+                ok_vars = [v for v in (z3.Bool(str(x)) for c in p.pc for x in _bools(c)) if "send_error.ok" in str(v)]
+                if ok_vars:
+                    viol.append(z3.And(pc, *ok_vars))
+    reach_l = R.live_reach(viol, reach, bad)
+    if bad or not all(reach_l):
+        return [R.Result(engine="mirsym", name="order:ws-receive-loop:oversize-message", kind="order", status="unsupported" if bad else "vacuous",
+                         detail=str(bad[:1] or {k: len(v) for k, v in reach.items()})[:300], bodies=[b.name])]
+    return [R.decide("order:ws-receive-loop:oversize-message", "order", z3.Or(*viol) if viol else z3.BoolVal(False), [z3.Or(*v) for v in reach_l], bodies=[b.name],
+                     desc="a WebSocket message the frame reader refused as too large is answered exactly once with id null and reject_too_big_request(this connection's max_request_body_size); "
+                          "no task is spawned and nothing is parsed or dispatched for it; the receive loop goes on to the next message unless that reply could not be sent",
+                     bounds="two loop iterations from any resume point; every outcome of try_recv, every kind of soketto error, both outcomes of sending the reply",
+                     keydetail="ws-oversize-arm",
+                     replay=dict(scenario="c07_ws", vars={}, fixed={"entry": "server", "max_req": 200, "max_resp": 4000, "n": 400}, region=z3.BoolVal(True)))]
+
+
+def _bools(c):
+    """Boolean constants occurring in a z3 term"""
+    out, todo, seen = [], [c], set()
+    while todo:
+        t = todo.pop()
+        if t.get_id() in seen:
+            continue
+        seen.add(t.get_id())
+        if z3.is_const(t) and t.decl().kind() == z3.Z3_OP_UNINTERPRETED and z3.is_bool(t):
+            out.append(t)
+        todo.extend(t.children())
     return out
 
 
